@@ -1,5 +1,64 @@
+import NessaiVerif.Model.Resample
 import NessaiVerif.Driver.Parse
-/- stub: replaced by the owner of this area -/
+/-
+Line protocol of the resampling model (token `rs`).  Weights and uniforms are exact
+rationals; a weight may also be written `m@e` (= m·2^e, e any integer) to keep
+extreme dynamic ranges short.
+
+  rs draw <method> <n|none> <ids> <w> <u>   → ok <indices> <sample ids> | err=value
+  rs rej <w> <u>                            → ok <indices>
+  rs mult <n> <w> <u>                       → ok <indices>
+  rs cdf <w>                                → ok <cdf>                  (rationals)
+  rs ess <w>                                → ok <ess> <floor>          (rational, integer)
+  rs effn <w>                               → ok <effective_n_posterior_samples>
+-/
 namespace NessaiVerif.Driver.Resample
-def handle (_toks : List String) : String := "bad-op"
+open NessaiVerif NessaiVerif.Parse NessaiVerif.Resample
+
+def pow2 (e : Nat) : Nat := 1 <<< e
+
+/-- `m@e` = m·2^e, or a plain rational -/
+def parseW? (s : String) : Option Rat :=
+  match s.splitOn "@" with
+  | [m, e] => do
+      let m ← m.toInt?
+      let e ← e.toInt?
+      if e ≥ 0 then some ((m * (pow2 e.toNat : Int) : Int) : Rat)
+      else some (mkRat m (pow2 (-e).toNat))
+  | _ => parseRat? s
+
+def showErr : Err → String
+  | .valueErr => "err=value"
+
+def handle (toks : List String) : String :=
+  match toks with
+  | ["draw", m, n, ids, w, u] =>
+    match parseOpt? parseNat? n, parseList? parseInt? ids, parseList? parseW? w, parseList? parseW? u with
+    | some n, some ids, some w, some u =>
+      match drawPosterior m n ids w u with
+      | .ok (idx, s) => "ok " ++ showList toString idx ++ " " ++ showList toString s
+      | .error e => showErr e
+    | _, _, _, _ => "bad-op"
+  | ["rej", w, u] =>
+    match parseList? parseW? w, parseList? parseW? u with
+    | some w, some u => "ok " ++ showList toString (rejectionIndices w u)
+    | _, _ => "bad-op"
+  | ["mult", n, w, u] =>
+    match parseNat? n, parseList? parseW? w, parseList? parseW? u with
+    | some n, some w, some u => "ok " ++ showList toString (multinomialIndices w n u)
+    | _, _, _ => "bad-op"
+  | ["cdf", w] =>
+    match parseList? parseW? w with
+    | some w => "ok " ++ showList showRat (cdf w)
+    | none => "bad-op"
+  | ["ess", w] =>
+    match parseList? parseW? w with
+    | some w => "ok " ++ showRat (ess w) ++ " " ++ toString (defaultN w)
+    | none => "bad-op"
+  | ["effn", w] =>
+    match parseList? parseW? w with
+    | some w => "ok " ++ showRat (effectiveN w)
+    | none => "bad-op"
+  | _ => "bad-op"
+
 end NessaiVerif.Driver.Resample
